@@ -8,7 +8,9 @@ FUNCTIONS = [_B + "BIPBBMD.confirmation[%s]" % k for k in ("OriginalBroadcastNPD
     _B + "BIPBBMD.register_foreign_device", _B + "BIPBBMD.process_task", _B + "BIPBBMD.delete_foreign_device_table_entry",
     _B + "BIPForeign.confirmation[Result]", _B + "BIPForeign.confirmation[ForwardedNPDU]", _B + "BIPForeign.process_task",
     _B + "BIPForeign.indication[local broadcast]", _B + "BIPForeign._registration_expired", _B + "BIPForeign.unregister", _B + "BIPForeign.register",
-    _B + "BIPForeign.confirmation[Result, no BBMD configured]"]
+    _B + "BIPForeign.confirmation[Result, no BBMD configured]",
+    _B + "BIPSimple.confirmation[OriginalUnicastNPDU]", _B + "BIPSimple.confirmation[OriginalBroadcastNPDU]", _B + "BIPSimple.confirmation[ForwardedNPDU]",
+    _B + "BIPSimple.confirmation[BBMD functions]", _B + "BIPSimple.indication"]
 LEMMAS = []
 MIN_OBLIGATIONS = 30
 BOUNDED = "bounded.c13"
@@ -20,10 +22,10 @@ ASSUMPTIONS = [
     "'exactly once at every node of the layout' = composition of the per-node contracts: each node forwards a broadcast to exactly the set stated here (own subnet handled by the IP broadcast itself), a Forwarded-NPDU is never forwarded to another BBMD, so with tables that list one another each node is reached by exactly one path; the composition over a layout is not machine-checked as a whole",
 ]
 NOT_DECIDED = [
-    "BIPSimple (ordinary node) and BIPNAT; the UDP multiplexer; write/read of the tables over the wire",
+    "BIPNAT; the UDP multiplexer; write/read of the tables over the wire",
     "whole-layout runs with random instants (see the composition assumption)",
 ]
-EXPLANATION = ("BBMD, broadcast heard on its subnet: handed to its network layer once as a local broadcast from the sender, forwarded (Forwarded-NPDU naming the sender, "
+EXPLANATION = ("Ordinary node (BIPSimple): a neighbour's Original-Broadcast and a BBMD's Forwarded-NPDU are each handed up exactly once as a local broadcast whose source is the true originator (the neighbour, resp. the address carried in the Forwarded-NPDU, not the relaying BBMD), a unicast once to the station, BBMD functions never; one frame goes out per request. BBMD, broadcast heard on its subnet: handed to its network layer once as a local broadcast from the sender, forwarded (Forwarded-NPDU naming the sender, "
                "same octets) exactly once to the directed-broadcast address of every other BBMD in its table and to every registered foreign device. Forwarded-NPDU from a peer: "
                "handed up once with the true originator as source, re-broadcast locally only if it came unicast and this BBMD lists itself, sent once to every registered foreign "
                "device, never to another BBMD. Distribute-Broadcast-To-Network from a registered foreign device: handed up once, forwarded once to every table entry (own subnet as "
